@@ -435,20 +435,20 @@ structure Cfg where
   canonical : Bool := false      -- WithCanonicalKeyFunc(textproto.CanonicalMIMEHeaderKey) (header)
   lower : Bool := false          -- WithCanonicalKeyFunc(strings.ToLower) (core/conf)
   opaqueKeys : Bool := false         -- WithOpaqueKeys (form, path): a key with dots is looked up literally
-  nested : Bool := false         -- position, not an option: inside a struct field (the node has ancestors the model does not thread)
+  anc : List (List (List Char × J)) := []   -- position, not an option: the objects enclosing the node, nearest first (a struct-typed field is read from a node whose parent is the valuer of the enclosing struct)
   pinned : Bool := false         -- behaviour of the pinned commit (see header)
-  deriving Repr, DecidableEq
+  deriving Repr
 
 /-- the same configuration on the repaired code -/
 def Cfg.repaired (c : Cfg) : Cfg := { c with pinned := false }
 
 /-- the unmarshaler inside a struct-typed field: `processFieldStruct` hands on a node whose parent is the valuer of the
 enclosing struct (`simpleValuer{current: mv, parent: vp.parent}`) -/
-def Cfg.nest (c : Cfg) : Cfg := { c with nested := true }
+def Cfg.nestIn (c : Cfg) (m : List (List Char × J)) : Cfg := { c with anc := m :: c.anc }
 
 /-- the unmarshaler on a fresh node without ancestors: struct elements of slices and maps (`fillStructElement` →
 `u.unmarshal`), an absent struct field (`valueWithParent{value: emptyMap}`) -/
-def Cfg.top (c : Cfg) : Cfg := { c with nested := false }
+def Cfg.top (c : Cfg) : Cfg := { c with anc := [] }
 
 /-! ## canonical keys (header unmarshaler) -/
 
@@ -707,7 +707,7 @@ def resolveOpts (c : Cfg) (po : Option Opts) (key : Str) (m : Obj) : Except Err 
 /-- options the model does not follow: `inherit` (parent lookups).  `env=NAME` is followed for an *unset* variable
 (`proc.Env` returns the empty string and the field is processed as if the option was absent); a set variable is
 outside the model (assumption: the harness only names variables that are not set). -/
-def optOutside (o : Option Opts) : Bool :=
+def optInherit (o : Option Opts) : Bool :=
   match o with
   | some o => o.inherit
   | none => false
@@ -749,19 +749,26 @@ def chainedLookup (unk : Bool) : List Str → List Obj → Except Err (Option J)
     | .ok (some (.obj nm)) => chainedLookup unk (k2 :: rest) (nm :: ch)
     | .ok _ => .ok none
 
-/-- `getValueWithChainedKeys(valuer, keys)` with the simple valuer of the field -/
-def dottedLookup (unk : Bool) (keys : List Str) (m : Obj) : Except Err (Option J) :=
+/-- the first segment goes through the field's own valuer (`createValuer`): simple, or recursive under `inherit` -/
+def firstLookup (unk inh : Bool) (anc : List Obj) (k : Str) (m : Obj) : Except Err (Option J) :=
+  if inh then recLookup unk (m :: anc) k else .ok (getKey k m)
+
+/-- `getValueWithChainedKeys(valuer, keys)` with the valuer of the field -/
+def dottedLookup (unk inh : Bool) (anc : List Obj) (keys : List Str) (m : Obj) : Except Err (Option J) :=
   match keys with
   | [] => .ok none
-  | [k] => .ok (getKey k m)
+  | [k] => firstLookup unk inh anc k m
   | k :: k2 :: rest =>
-    match getKey k m with
-    | some (.obj nm) => chainedLookup unk (k2 :: rest) [nm, m]
-    | _ => .ok none
+    match firstLookup unk inh anc k m with
+    | .error e => .error e
+    | .ok (some (.obj nm)) => chainedLookup unk (k2 :: rest) (nm :: m :: anc)
+    | .ok _ => .ok none
 
-/-- `getValue(valuer, canonicalKey, u.opts.opaqueKeys)` -/
-def lookupKey (c : Cfg) (key : Str) (m : Obj) : Except Err (Option J) :=
-  if c.opaqueKeys || !key.contains '.' then .ok (getKey key m) else dottedLookup c.nested (fieldsDot key) m
+/-- `getValue(valuer, canonicalKey, u.opts.opaqueKeys)`; `inh`: the field is tagged `inherit`, `createValuer` hands out a
+`recursiveValuer` (the current object, then the enclosing ones, nearest first) instead of the simple one -/
+def lookupKey (c : Cfg) (inh : Bool) (key : Str) (m : Obj) : Except Err (Option J) :=
+  if c.opaqueKeys || !key.contains '.' then firstLookup false inh c.anc key m
+  else dottedLookup false inh c.anc (fieldsDot key) m
 
 /-- `processField` / `processNamedField` for one field against the object `m`; the type-directed
 continuations are passed in (`wv` = with a value, `ar` = absent and required, `dv` = default, `z` = zero value) -/
@@ -778,9 +785,8 @@ def fieldCore (c : Cfg) (name : Str) (tag : Option Str) (isSlice : Bool) (m : Ob
       | .error e => .error e
       | .ok o =>
         if key = "-".toList then .ok z
-        else if optOutside o then .error .outside
         else
-          match lookupKey c key m with
+          match lookupKey c (optInherit o) key m with
           | .error e => .error e
           | .ok none =>
             if optDefault o ≠ [] then dv (optDefault o)
@@ -975,7 +981,7 @@ def absentRequired (c : Cfg) : Ty → Except Err Val
 def unmFields (c : Cfg) : Fields → Obj → Except Err VFields
   | .nil, _ => .ok .nil
   | .cons name tag t rest, m =>
-    match fieldCore c name tag t.isSlice m (fun o j => withValue c.nest o t j) (fun _ => absentRequired c t)
+    match fieldCore c name tag t.isSlice m (fun o j => withValue (c.nestIn m) o t j) (fun _ => absentRequired c t)
             (defaultVal c t) (zero t) with
     | .error e => .error e
     | .ok v =>
